@@ -1,9 +1,11 @@
 (* Proof scripts for the dispatch bridge (Model/Dispatch.v).  Table-independent: everything is stated for ANY
    inspection tables and ANY two handler tables satisfying computable conditions (atoms_ok, all_reps_ok,
    wrap_tables_ok) that vm_compute decides for the reflected ones (dyn/Dispatch/Dispatch.v). *)
-From Coq Require Import List NArith ZArith String Ascii Bool Lia.
+From Coq Require Import List NArith ZArith String Ascii Bool Lia PeanoNat.
 Import ListNotations.
 Require Import TL.Model.Inspect TL.Model.InspectSpec TL.Model.Dispatch TL.Proofs.InspectLemmas.
+Require TL.Model.Core TL.Model.Build.
+Require Import TL.Model.DispatchEq.
 Local Open Scope string_scope.
 
 (* ------------------------------------------------------------------ A. strings, atoms, canonical arguments *)
@@ -77,6 +79,16 @@ Proof.
   intros t H. unfold issubscriptedgeneric. cbv zeta. rewrite H, andb_true_r.
   apply orb_true_iff. right. unfold isgeneric. cbv zeta. rewrite H. rewrite !orb_true_r. reflexivity.
 Qed.
+
+(* unwrap() returns an annotation that is neither qualified nor a NewType / alias *)
+Lemma unwrap_fuel_head : forall n u, should_unwrap T u = false -> is_wrapper u = false ->
+  unwrap_fuel T (S n) u = Ok u.
+Proof.
+  intros n u Hs Hw. cbn [unwrap_fuel]. rewrite Hs. destruct u; cbn in Hw; try discriminate Hw; reflexivity.
+Qed.
+Lemma dispatch_head : forall hs fb u, should_unwrap T u = false -> is_wrapper u = false ->
+  dispatch T hs fb u = first_match T hs fb u.
+Proof. intros hs fb u Hs Hw. unfold dispatch, unwrap. rewrite (unwrap_fuel_head 199 u Hs Hw). reflexivity. Qed.
 
 (* ------------------------------------------------------------------ B. the answer on t is the answer on canon t *)
 Hypothesis Hat : atoms_ok T = true.
@@ -223,6 +235,131 @@ Proof.
 Qed.
 End L.
 
+Lemma member_plain : forall t x, In x (params (peel t)) -> is_ellipsis x = false -> is_typevar x = false ->
+  member x t.
+Proof.
+  intros t x Hin He Htv. replace x with (normalize_typevar x) at 1; [constructor; assumption|].
+  destruct x; try reflexivity; discriminate Htv.
+Qed.
+
+(* ------------------------------------------------------------------ E. unwrap() on well-wrapped annotations *)
+Section W.
+Variable T : tables.
+Hypothesis Hat : atoms_ok T = true.
+Hypothesis Hwt : wrap_tables_ok T = true.
+
+(* NewTypes / aliases stripped, a string alias kept *)
+Fixpoint core (t : ity) : ity := match t with INewType _ s | IAlias _ s => core s | _ => t end.
+
+Lemma isclassvar_newtype : forall nm s, isclassvartype (INewType nm s) = isclassvartype s.
+Proof. reflexivity. Qed.
+
+Lemma origin_alias : forall nm v, isclassvartype v = false -> origin T (IAlias nm v) = origin T v.
+Proof.
+  intros nm v Hc. unfold origin. cbv zeta.
+  cbn [resolve_supertype]. change (isclassvartype (IAlias nm v)) with false. cbv iota.
+  unfold isclassvartype in Hc. 
+  assert (H2 : isclassvartype (resolve_supertype v) = false).
+  { unfold isclassvartype. rewrite resolve_idem. exact Hc. }
+  rewrite H2. cbn [resolve_wrappers]. rewrite resolve_wrappers_resolve. reflexivity.
+Qed.
+
+Lemma plain_core : forall t, plain t = true -> isclassvartype (core t) = false ->
+  isclassvartype t = false /\ origin T t = origin T (core t).
+Proof.
+  induction t; intros Hp Hc; cbn [core] in *; try (split; [exact Hc | reflexivity]); cbn [plain] in Hp.
+  - destruct (IHt Hp Hc) as [H1 H2]. split; [rewrite isclassvar_newtype; exact H1|].
+    rewrite origin_newtype. exact H2.
+  - destruct (IHt Hp Hc) as [H1 H2]. split; [reflexivity|]. rewrite (origin_alias nm t H1). exact H2.
+Qed.
+
+Lemma origin_aliasstr : forall nm s, origin T (IAliasStr nm s) = IValue (LStr s).
+Proof.
+  intros nm s. unfold origin. cbv zeta. cbn [resolve_supertype isclassvartype resolve_wrappers get_origin].
+  unfold check_generics. rewrite (assoc_atoms_none _ (IValue (LStr s)) (gmap_atoms T Hat)) by reflexivity.
+  destruct (isbuiltintype T (IValue (LStr s))); reflexivity.
+Qed.
+
+Lemma isfinal_final : forall s, isfinal T (IFinal s) = true.
+Proof. intro s. unfold isfinal. change (origin T (IFinal s)) with (origin T (IFinal INone)). exact Hwt. Qed.
+
+Lemma should_unwrap_final : forall s, should_unwrap T (IFinal s) = true.
+Proof. intro s. unfold should_unwrap. rewrite isfinal_final. rewrite orb_true_r. reflexivity. Qed.
+Lemma should_unwrap_classvar : forall s, should_unwrap T (IClassVar s) = true.
+Proof. reflexivity. Qed.
+
+(* a plain chain over a head that is not a qualifier is not unwrapped as a qualifier *)
+Lemma should_unwrap_plain : forall t, plain t = true ->
+  isclassvartype (core t) = false -> isfinal T (core t) = false -> should_unwrap T t = false.
+Proof.
+  intros t Hp Hc Hf. destruct (plain_core t Hp Hc) as [H1 H2].
+  unfold should_unwrap. rewrite H1. unfold isfinal in *. rewrite H2, Hf. apply andb_false_r.
+Qed.
+
+Lemma core_peel : forall t, plain t = true ->
+  (exists nm s, core t = IAliasStr nm s /\ peel t = IForwardRef s (Some user_module)) \/ core t = peel t.
+Proof.
+  induction t; intro Hp; cbn [core peel plain] in *; try (right; reflexivity); try discriminate Hp.
+  - apply IHt; exact Hp.
+  - apply IHt; exact Hp.
+  - left. exists nm, ref. split; reflexivity.
+Qed.
+
+Lemma plain_wrap_ok : forall t, plain t = true -> wrap_ok t = true.
+Proof. destruct t; cbn; intro H; try reflexivity; try exact H; discriminate. Qed.
+
+(* unwrap() peels a well-wrapped annotation whose head is not itself qualified *)
+Theorem unwrap_peel : forall t n,
+  wrap_ok t = true -> wdepth t <= n ->
+  isclassvartype (peel t) = false -> isfinal T (peel t) = false -> is_wrapper (peel t) = false ->
+  unwrap_fuel T n t = Ok (peel t).
+Proof.
+  induction t; intros n Hw Hd Hc Hf Hnw;
+    try (destruct n as [|k]; [cbn in Hd; lia|]; cbn [peel] in *;
+         apply unwrap_fuel_head; [unfold should_unwrap; rewrite Hc, Hf; apply andb_false_r | exact Hnw]).
+  - (* IFinal *) destruct n as [|k]; [cbn in Hd; lia|]. cbn [wdepth] in Hd. cbn [wrap_ok peel] in *.
+    cbn [unwrap_fuel]. rewrite should_unwrap_final. cbn [resolve_wrappers dunder_args].
+    apply IHt; try assumption. lia.
+  - (* IClassVar *) destruct n as [|k]; [cbn in Hd; lia|]. cbn [wdepth] in Hd. cbn [wrap_ok peel] in *.
+    cbn [unwrap_fuel]. rewrite should_unwrap_classvar. cbn [resolve_wrappers dunder_args].
+    apply IHt; try assumption. lia.
+  - (* INewType *) destruct n as [|k]; [cbn in Hd; lia|]. cbn [wdepth] in Hd. cbn [wrap_ok] in Hw.
+    assert (Hsu : should_unwrap T (INewType nm t) = false).
+    { destruct (core_peel _ Hw) as [[a [s [Hco Hpe]]]|Hco].
+      - apply should_unwrap_plain; [exact Hw | rewrite Hco; reflexivity|].
+        rewrite Hco. unfold isfinal. rewrite origin_aliasstr. reflexivity.
+      - apply should_unwrap_plain; [exact Hw | rewrite Hco; exact Hc | rewrite Hco; exact Hf]. }
+    cbn [unwrap_fuel]. rewrite Hsu. cbn [peel plain] in *.
+    apply IHt; try assumption; [apply plain_wrap_ok; exact Hw | lia].
+  - (* IAlias *) destruct n as [|k]; [cbn in Hd; lia|]. cbn [wdepth] in Hd. cbn [wrap_ok] in Hw.
+    assert (Hsu : should_unwrap T (IAlias nm t) = false).
+    { destruct (core_peel _ Hw) as [[a [s [Hco Hpe]]]|Hco].
+      - apply should_unwrap_plain; [exact Hw | rewrite Hco; reflexivity|].
+        rewrite Hco. unfold isfinal. rewrite origin_aliasstr. reflexivity.
+      - apply should_unwrap_plain; [exact Hw | rewrite Hco; exact Hc | rewrite Hco; exact Hf]. }
+    cbn [unwrap_fuel]. rewrite Hsu. cbn [peel plain] in *.
+    apply IHt; try assumption; [apply plain_wrap_ok; exact Hw | lia].
+  - (* IAliasStr *) destruct n as [|k]; [cbn in Hd; lia|].
+    assert (Hsu : should_unwrap T (IAliasStr nm ref) = false).
+    { unfold should_unwrap. unfold isfinal. rewrite origin_aliasstr. reflexivity. }
+    cbn [unwrap_fuel]. rewrite Hsu. reflexivity.
+Qed.
+End W.
+
+(* Build.construct builds a routine of the constructor its (unwrapped) annotation has *)
+Lemma construct_head : forall E dir cx u r,
+  Build.construct E dir cx u = Core.Ok r -> ty_bhead E u = Some (routine_bhead r).
+Proof.
+  intros E dir cx u r H. destruct u; cbn [Build.construct ty_bhead] in *;
+    try (inversion H; subst; reflexivity); try discriminate H.
+  - destruct (Build.getitem cx (Build.evaluate u)); cbn in H; try discriminate H. inversion H; reflexivity.
+  - destruct (Build.getitem cx (Build.evaluate u1)); cbn in H; try discriminate H.
+    destruct (Build.getitem cx (Build.evaluate u2)); cbn in H; try discriminate H. inversion H; reflexivity.
+  - destruct (Core.mapM _ ts); cbn in H; try discriminate H. inversion H; reflexivity.
+  - destruct (Core.mapM _ _); cbn in H; try discriminate H. inversion H; reflexivity.
+  - destruct (E n) as [[cd|]|]; try discriminate H. inversion H; reflexivity.
+Qed.
+
 (* ------------------------------------------------------------------ D. from the finite check to every annotation *)
 Section M.
 Variable D : dtables.
@@ -355,5 +492,146 @@ Theorem heads_pairs : forall u cu cm, supported_head D u = true ->
 Proof.
   intros u cu cm Hs Hu Hm. destruct (heads_dispatch u Hs) as [k [_ [Hu' Hm']]].
   rewrite Hu' in Hu. rewrite Hm' in Hm. inversion Hu. inversion Hm. exists k. split; reflexivity.
+Qed.
+(* ---- wrapped annotations: qualifiers, NewTypes, aliases (any nesting within the shape wrap_ok, any depth the
+   unwrap model has fuel for) around a supported head *)
+Hypothesis Hwt : wrap_tables_ok T = true.
+
+Lemma supported_head_not_wrapper : forall u, supported_head D u = true -> is_wrapper u = false.
+Proof. destruct u; cbn; intro H; try reflexivity; discriminate. Qed.
+
+Lemma unwrap_supported : forall t, wrap_ok t = true -> wdepth t <= 200 -> supported_head D (peel t) = true ->
+  unwrap T t = Ok (peel t).
+Proof.
+  intros t Hw Hd Hs. destruct (head_not_qualified _ Hs) as [Hf Hc].
+  apply (unwrap_peel T Hat Hwt); try assumption. apply supported_head_not_wrapper. exact Hs.
+Qed.
+
+Theorem wrapped_dispatch : forall t, wrap_ok t = true -> wdepth t <= 200 -> supported_head D (peel t) = true ->
+  exists k, kind_of T (peel t) = Some k /\ disp_u D t = DOk (expected_u k) /\ disp_m D t = DOk (expected_m k).
+Proof.
+  intros t Hw Hd Hs. destruct (heads_first_match _ Hs) as [k [Hk [Hu Hm]]]. exists k. split; [exact Hk|].
+  unfold disp_u, disp_m, dispatch. fold T. rewrite (unwrap_supported t Hw Hd Hs). split; assumption.
+Qed.
+
+(* ---- whole annotations: every sub-annotation at any depth *)
+Lemma supported_norm : forall x, supported D x = true ->
+  supported D (normalize_typevar x) = true /\ is_typevar (normalize_typevar x) = false.
+Proof.
+  intros x H. destruct x; try (split; [exact H | reflexivity]).
+  destruct bound as [b|]; cbn [normalize_typevar].
+  - cbn [supported] in H. apply andb_prop in H. destruct H as [H1 H2]. apply negb_true_iff in H1. split; assumption.
+  - destruct constraints as [|c0 cs]; [split; [exact H | reflexivity]|]. split; [|reflexivity].
+    cbn [supported] in H. cbn [supported supported_head]. exact H.
+Qed.
+
+Lemma supported_peel : forall t, supported D t = true -> is_typevar t = false ->
+  wrap_ok t = true /\ wdepth t <= 200 /\ supported_head D (peel t) = true
+  /\ supported D (peel t) = true /\ is_typevar (peel t) = false.
+Proof.
+  assert (Hwrap : forall t s, peel t = peel s -> wrap_ok t = true -> wdepth t <= 200 ->
+            supported_head D (peel t) = true -> supported D s = true ->
+            (supported D s = true -> is_typevar s = false ->
+               supported D (peel s) = true /\ is_typevar (peel s) = false) ->
+            is_typevar (peel s) = false -> 
+            wrap_ok t = true /\ wdepth t <= 200 /\ supported_head D (peel t) = true
+            /\ supported D (peel t) = true /\ is_typevar (peel t) = false).
+  { intros t s Hp Hw Hd Hs Hss IH Htv. split; [exact Hw|]. split; [exact Hd|]. split; [exact Hs|].
+    rewrite Hp. split; [|exact Htv].
+    destruct (is_typevar s) eqn:Es.
+    - destruct s; cbn in Es, Htv; discriminate.
+    - apply IH; [exact Hss | reflexivity]. }
+  induction t; intros H Htv;
+    try (cbn [peel wrap_ok wdepth]; repeat split; try reflexivity; try lia; try exact H;
+         cbn [supported] in H; try exact H; apply andb_prop in H; tauto).
+  - (* IFinal *) cbn [supported] in H.
+    apply andb_prop in H. destruct H as [H Hsup]. apply andb_prop in H. destruct H as [H Hhead].
+    apply andb_prop in H. destruct H as [Hwo Hdep]. apply Nat.leb_le in Hdep.
+    assert (Htp : is_typevar (peel t) = false).
+    { cbn [peel] in Hhead. destruct (peel t); try reflexivity. discriminate Hhead. }
+    apply (Hwrap (IFinal t) t); try assumption; try reflexivity.
+    intros A B. destruct (IHt A B) as [_ [_ [_ [C E]]]]. split; assumption.
+  - (* IClassVar *) cbn [supported] in H.
+    apply andb_prop in H. destruct H as [H Hsup]. apply andb_prop in H. destruct H as [H Hhead].
+    apply andb_prop in H. destruct H as [Hwo Hdep]. apply Nat.leb_le in Hdep.
+    assert (Htp : is_typevar (peel t) = false).
+    { cbn [peel] in Hhead. destruct (peel t); try reflexivity. discriminate Hhead. }
+    apply (Hwrap (IClassVar t) t); try assumption; try reflexivity.
+    intros A B. destruct (IHt A B) as [_ [_ [_ [C E]]]]. split; assumption.
+  - (* INewType *) cbn [supported] in H.
+    apply andb_prop in H. destruct H as [H Hsup]. apply andb_prop in H. destruct H as [H Hhead].
+    apply andb_prop in H. destruct H as [Hwo Hdep]. apply Nat.leb_le in Hdep.
+    assert (Htp : is_typevar (peel t) = false).
+    { cbn [peel] in Hhead. destruct (peel t); try reflexivity. discriminate Hhead. }
+    apply (Hwrap (INewType nm t) t); try assumption; try reflexivity.
+    intros A B. destruct (IHt A B) as [_ [_ [_ [C E]]]]. split; assumption.
+  - (* IAlias *) cbn [supported] in H.
+    apply andb_prop in H. destruct H as [H Hsup]. apply andb_prop in H. destruct H as [H Hhead].
+    apply andb_prop in H. destruct H as [Hwo Hdep]. apply Nat.leb_le in Hdep.
+    assert (Htp : is_typevar (peel t) = false).
+    { cbn [peel] in Hhead. destruct (peel t); try reflexivity. discriminate Hhead. }
+    apply (Hwrap (IAlias nm t) t); try assumption; try reflexivity.
+    intros A B. destruct (IHt A B) as [_ [_ [_ [C E]]]]. split; assumption.
+  - (* ITypeVar *) discriminate Htv.
+Qed.
+
+Lemma supported_params : forall u x, supported D u = true -> is_wrapper u = false -> In x (params u) ->
+  is_ellipsis x = false -> supported D x = true.
+Proof.
+  intros u x H Hnw Hin He.
+  destruct u; cbn [params] in Hin; try destruct Hin; cbn [supported] in H;
+    apply andb_prop in H; destruct H as [_ H]; rewrite forallb_forall in H;
+    specialize (H _ Hin); rewrite He in H; exact H.
+Qed.
+
+Lemma member_supported : forall s t, supported D t = true -> is_typevar t = false -> member s t ->
+  supported D s = true /\ is_typevar s = false.
+Proof.
+  intros s t H Htv Hm. destruct Hm as [t x Hin He].
+  destruct (supported_peel t H Htv) as [_ [_ [Hh [Hp _]]]].
+  apply supported_norm. apply (supported_params (peel t) x Hp); try assumption.
+  apply supported_head_not_wrapper. exact Hh.
+Qed.
+
+Lemma occurs_supported : forall s t, occurs s t -> supported D t = true -> is_typevar t = false ->
+  supported D s = true /\ is_typevar s = false.
+Proof.
+  intros s t Ho. induction Ho as [t|s m t Hm Ho IH]; intros H Htv; [split; assumption|].
+  destruct (member_supported m t H Htv Hm) as [A B]. apply IH; assumption.
+Qed.
+
+(* EVERYWHERE: in a supported annotation every sub-annotation, at any depth (parameters of parameters, members of
+   unions, through NewTypes / aliases / qualifiers, type variables normalised), is dispatched to the routine class
+   of its own head kind, on both sides *)
+Theorem everywhere_dispatch : forall t s, supported D t = true -> is_typevar t = false -> occurs s t ->
+  exists k, kind_of T (peel s) = Some k /\ disp_u D s = DOk (expected_u k) /\ disp_m D s = DOk (expected_m k).
+Proof.
+  intros t s H Htv Ho. destruct (occurs_supported s t Ho H Htv) as [Hs Hts].
+  destruct (supported_peel s Hs Hts) as [Hw [Hd [Hh _]]]. apply wrapped_dispatch; assumption.
+Qed.
+
+(* ---- the mechanism model's constructor cases and the code's dispatch (two descriptions of one annotation) *)
+Lemma bhead_eqb_eq : forall a b, bhead_eqb a b = true -> a = b.
+Proof. destruct a; destruct b; cbn; intro H; try reflexivity; discriminate. Qed.
+
+(* If the Core description tau and the syntactic description t of one annotation agree on the head (heads_agree = 0:
+   decided on every run for generated annotations), then whatever routine Build.construct builds for tau is of the
+   constructor that stands for the routine class the code's dispatch chooses for t, on both sides. *)
+Theorem construct_matches_dispatch : forall E t tau dir cx r,
+  heads_agree D E t tau = 0 ->
+  Build.construct E dir cx (Build.unwrap tau) = Core.Ok r ->
+  exists k, kind_of T (peel t) = Some k /\ routine_bhead r = build_head k
+    /\ disp_u D t = DOk (expected_u k) /\ disp_m D t = DOk (expected_m k).
+Proof.
+  intros E t tau dir cx r Ha Hc. unfold heads_agree in Ha. fold T in Ha.
+  destruct (supported D t && negb (is_typevar t)) eqn:Hs; cbn [negb] in Ha; [|discriminate].
+  apply andb_prop in Hs. destruct Hs as [Hs Htv]. apply negb_true_iff in Htv.
+  destruct (kind_of T (peel t)) as [k|] eqn:Hk; [|discriminate].
+  destruct (ty_bhead E (Build.unwrap tau)) as [h|] eqn:Hh; [|discriminate].
+  destruct (bhead_eqb (build_head k) h) eqn:Hb; [|discriminate]. apply bhead_eqb_eq in Hb.
+  rewrite (construct_head _ _ _ _ _ Hc) in Hh. inversion Hh as [Hh'].
+  destruct (everywhere_dispatch t t Hs Htv (occurs_here t)) as [k' [Hk' [Hu Hm]]].
+  rewrite Hk in Hk'. inversion Hk'; subst k'.
+  exists k. split; [reflexivity|]. split; [congruence|]. split; assumption.
 Qed.
 End M.
